@@ -209,6 +209,43 @@ class Terms(object):
             return t + (tag,)
         return t
 
+    def _flag_scan(self, t, pol):
+        """("some"/"none", iterable, conditions) when ``t`` is a boolean flag
+        that starts False and is set True inside one for loop under
+        conditions on the loop's element, and (t, pol) is a fact."""
+        if t[0] != "mu":
+            return None
+        mu = t[1]
+        binds = [mu.T.binds[i] for i in mu.ids]
+        vals = [(b_, plain(mu.T._bind_term(b_))) for b_ in binds]
+        sets = [b_ for b_, v in vals if v == ("const", True)]
+        clears = [b_ for b_, v in vals if v == ("const", False)]
+        if len(sets) != 1 or len(clears) != 1 or len(vals) != 2:
+            return None
+        lp = sets[0].node.ast
+        while lp is not None and not isinstance(lp, (ast.For, ast.While)):
+            lp = getattr(lp, "_parent", None)
+        if not isinstance(lp, ast.For) or id(lp) not in self.cfg.loop_head \
+                or _inside_fn(clears[0].node.ast, lp):
+            return None
+        cfg = self.cfg
+        pre = cfg.stmt_node[id(lp)]
+        head = cfg.loop_head[id(lp)]
+        if not cfg.dominates(clears[0].node, pre):
+            return None
+        # nothing leaves the scan early before the flag is set
+        for n in cfg.nodes:
+            if isinstance(n.ast, (ast.Break, ast.Return)) and \
+                    _inside_fn(n.ast, lp) and \
+                    not cfg.dominates(sets[0].node, n):
+                return None
+        before = self.all_facts(pre)
+        guard = [f for f in self.all_facts(sets[0].node) if f not in before]
+        if not guard:
+            return None
+        it = self.term(lp.iter, head)
+        return ("some" if pol else "none", it, guard)
+
     def under(self, *hyps):
         """The same function analysed only on the executions on which every
         (condition term, truth value) of ``hyps`` holds: branch edges that
@@ -514,6 +551,13 @@ class Terms(object):
                     out.append(("some" if pol else "none", it, cs))
                 else:
                     out.append(("all" if pol else "notall", it, cs))
+        # a flag set in a scan: ``f = False; for x in it: if c: f = True``
+        # tested afterwards says some / no element satisfies c
+        for t, pol in list(self.all_facts(node) if facts is None
+                           else facts) + list(extra):
+            q = self._flag_scan(t, pol)
+            if q is not None:
+                out.append(q)
         out = [_retarget(q) for q in out]
         cfg = self.cfg
         dom = cfg.dominators()[node.id]
